@@ -53,6 +53,10 @@ type Config struct {
 	Deadline  time.Time     // zero = none
 	Workers   int           // 0 = GOMAXPROCS
 	Progress  func(d, n int) // optional
+	// Optional: called once for every newly admitted state (from worker goroutines, in parallel)
+	// with a path that reaches it. Used for observations that are too expensive to repeat on every
+	// transition; sound because equal keys mean isomorphic (implementation, model) pairs.
+	OnNewState func(path []Op) *Viol
 }
 
 type Stats struct {
@@ -124,6 +128,11 @@ func ExploreFrom(sys System, seeds [][]Op, cfg Config) Stats {
 		seen[k] = struct{}{}
 		st.States++
 		frontier = append(frontier, node{path: append([]Op(nil), s...), next: r.Next})
+		if cfg.OnNewState != nil {
+			if v := cfg.OnNewState(s); v != nil {
+				addViol(s, v)
+			}
+		}
 	}
 	depth := 0
 	for len(frontier) > 0 {
@@ -154,6 +163,7 @@ func ExploreFrom(sys System, seeds [][]Op, cfg Config) Stats {
 				var local []node
 				var localKeys []hkey
 				flush := func() {
+					var fresh []node
 					mu.Lock()
 					for i, n := range local {
 						if _, ok := seen[localKeys[i]]; ok {
@@ -166,8 +176,16 @@ func ExploreFrom(sys System, seeds [][]Op, cfg Config) Stats {
 						seen[localKeys[i]] = struct{}{}
 						st.States++
 						next = append(next, n)
+						if cfg.OnNewState != nil {
+							fresh = append(fresh, n)
+						}
 					}
 					mu.Unlock()
+					for _, n := range fresh {
+						if v := cfg.OnNewState(n.path); v != nil {
+							addViol(n.path, v)
+						}
+					}
 					local = local[:0]
 					localKeys = localKeys[:0]
 				}
